@@ -177,6 +177,38 @@ def check_tensor_variants(run, fdmod, p, mode, N, rows, rng):
     return n
 
 
+def check_scales(run, fdmod, p, mode, N, rows, rng):
+    """The operator is the LINEAR map of the specification whatever the scale of the field: a perturbation on a large
+    background, a field in tiny units, a huge field - the matrix applied to it, up to round-off on the field's own size."""
+    M = np.array([[float(x) for x in r] for r in rows])
+    # round-off is governed by the raw stencil weights (up to ~30 for the one-sided 8th-order scheme), which a periodic matrix on a
+    # tiny grid folds onto each other
+    wmax = max(np.abs(M).max() if M.size else 1.0, 30.0)
+    shape = (N, N + 1, N + 2)
+    h = (0.25, 0.5, 0.125)
+    n = 0
+    for axis in range(3):
+        sh = list(shape)
+        sh[axis], sh[0] = sh[0], sh[axis]
+        fd = make_fd(fdmod, tuple(sh), h, p, mode)
+        g = rng.integers(-9, 10, size=tuple(sh)).astype(float)
+        for label, f in (("perturbation 1e-7 on a background of 1", 1.0 + 1e-7 * g), ("amplitude 1e-10", 1e-10 * g),
+                         ("amplitude 1e+9", 1e9 * g), ("perturbation 1e-9 on a background of -300", -300.0 + 1e-9 * g)):
+            got = [fd.d3x, fd.d3y, fd.d3z][axis](f.copy())
+            exp = np.moveaxis(np.tensordot(M, np.moveaxis(f, axis, 0), axes=(1, 0)) / h[axis], 0, axis)
+            tol = 256 * np.finfo(float).eps * wmax * np.abs(f).max() * (p + 1) / h[axis]
+            err = np.abs(got - exp).max() if got.shape == exp.shape else float("inf")
+            if err > tol:
+                run.violation({"clause": "LinearAtEveryScale", "p": p, "mode": mode, "axis": "xyz"[axis], "field": label},
+                              f"d3{'xyz'[axis]} order {p} {mode} N={N} on a field with {label}: differs from the specified matrix applied to the field by "
+                              f"{err:.3e} (the derivative itself is of size {np.abs(exp).max():.3e}, round-off allows {tol:.1e})",
+                              {"p": p, "mode": mode, "N": N, "axis": axis, "field": label})
+            else:
+                n += 1
+                run.count(("scale", p, mode, "xyz"[axis], label))
+    return n
+
+
 def run(tier, seed):
     run = Run("C07", tier, seed)
     import aurel.finitedifference as fdmod
@@ -209,6 +241,7 @@ def run(tier, seed):
         if N in want and (p, mode, N) not in tensor_done and N >= 2:
             tensor_done.add((p, mode, N))
             run.traces += check_tensor_variants(run, fdmod, p, mode, N, rows, rng)
+            run.traces += check_scales(run, fdmod, p, mode, N, rows, rng)
         if len(run.samples) < 6 and N == min_n(p, mode) + 1:
             run.sample({"state": {"p": p, "mode": mode, "N": N, "i": 0},
                         "spec_row_i0": [str(x) for x in rows[0]],
